@@ -1,0 +1,35 @@
+//go:build verif
+
+package gcsutil
+
+// Verification hooks. This file is compiled only with `-tags verif`; nothing in it is
+// reachable from a normal build.
+
+// VerifYield, when set, is called at the named scheduling points of TransientLockMap
+// (never while the map mutex is held).
+var VerifYield func(point, key string)
+
+func verifYield(point, key string) {
+	if f := VerifYield; f != nil {
+		f(point, key)
+	}
+}
+
+// VerifEntry reports the map entry of key: whether it exists, its reference count and
+// whether its one-slot channel is full (the key is locked).
+func (l *TransientLockMap) VerifEntry(key string) (present bool, refcount int64, full bool) {
+	l.mu.Lock()
+	defer l.mu.Unlock()
+	lock, ok := l.locks[key]
+	if !ok {
+		return false, 0, false
+	}
+	return true, lock.refcount, len(lock.ch) == 1
+}
+
+// VerifLen reports the number of entries in the map.
+func (l *TransientLockMap) VerifLen() int {
+	l.mu.Lock()
+	defer l.mu.Unlock()
+	return len(l.locks)
+}
